@@ -7,12 +7,16 @@ pub mod c01;
 pub mod c02;
 pub mod c03;
 pub mod c04;
+pub mod c06;
 pub mod c08;
 pub mod c11;
+pub mod c12;
+pub mod rangegen;
 pub mod enumcase;
 pub mod c13;
 pub mod c14;
 pub mod c16;
+pub mod c17;
 
 pub const ALL: [&str; 17] = [
     "C01", "C02", "C03", "C04", "C05", "C06", "C07", "C08", "C09", "C10", "C11", "C12", "C13",
@@ -25,12 +29,15 @@ pub fn run(ctx: &Ctx) -> Option<Report> {
         "C02" => c02::run(ctx),
         "C03" => c03::run(ctx),
         "C04" => c04::run(ctx),
+        "C06" => c06::run(ctx),
         "C07" => c01::run(ctx, c01::Which::C07),
         "C08" => c08::run(ctx),
         "C11" => c11::run(ctx),
+        "C12" => c12::run(ctx),
         "C13" => c13::run(ctx),
         "C14" => c14::run(ctx),
         "C16" => c16::run(ctx),
+        "C17" => c17::run(ctx),
         _ => return None,
     })
 }
@@ -42,12 +49,15 @@ pub fn replay(property: &str, case: &Json, ctx: &Ctx) -> Option<Report> {
         "C02" => c02::replay(case),
         "C03" => c03::replay(case),
         "C04" => c04::replay(case),
+        "C06" => c06::replay(case),
         "C07" => c01::replay(case, c01::Which::C07),
         "C08" => c08::replay(case, ctx),
         "C11" => c11::replay(case),
+        "C12" => c12::replay(case),
         "C13" => c13::run(ctx),
         "C14" => c14::run(ctx),
         "C16" => c16::replay(case),
+        "C17" => c17::replay(case),
         _ => return None,
     })
 }
